@@ -10,15 +10,15 @@ Set Implicit Arguments.
 
 Lemma set_nth_some {A} (v : A) l i : i < length l -> exists l', set_nth i v l = Some l'.
 Proof.
-  revert i; induction l as [|x l IH]; intros i Hi; simpl in *; [lia|].
-  destruct i as [|i]; [eexists; reflexivity|].
+  revert i; induction l as [|x l IH]; intros i Hi; simpl in Hi; [lia|].
+  destruct i as [|i]; simpl; [eexists; reflexivity|].
   destruct (IH i) as [l' Hl']; [lia|]. rewrite Hl'. eexists; reflexivity.
 Qed.
 
 Lemma set_nth_length {A} (v : A) l i l' : set_nth i v l = Some l' -> length l' = length l.
 Proof.
-  revert i l'; induction l as [|x l IH]; intros i l' H; simpl in *; [discriminate|].
-  destruct i as [|i].
+  revert i l'; induction l as [|x l IH]; intros i l' H; destruct i as [|i]; simpl in H;
+    try discriminate.
   - injection H as <-. reflexivity.
   - destruct (set_nth i v l) as [r|] eqn:E; [|discriminate].
     injection H as <-. simpl. f_equal. eapply IH; exact E.
@@ -26,8 +26,8 @@ Qed.
 
 Lemma set_nth_lt {A} (v : A) l i l' : set_nth i v l = Some l' -> i < length l.
 Proof.
-  revert i l'; induction l as [|x l IH]; intros i l' H; simpl in *; [discriminate|].
-  destruct i as [|i]; [lia|].
+  revert i l'; induction l as [|x l IH]; intros i l' H; destruct i as [|i]; simpl in *;
+    try discriminate; [lia|].
   destruct (set_nth i v l) as [r|] eqn:E; [|discriminate].
   apply IH in E. lia.
 Qed.
@@ -36,8 +36,8 @@ Lemma set_nth_get {A} (v : A) l i l' j :
   set_nth i v l = Some l' ->
   nth_error l' j = if Nat.eqb i j then Some v else nth_error l j.
 Proof.
-  revert i l' j; induction l as [|x l IH]; intros i l' j H; simpl in *; [discriminate|].
-  destruct i as [|i].
+  revert i l' j; induction l as [|x l IH]; intros i l' j H; destruct i as [|i]; simpl in H;
+    try discriminate.
   - injection H as <-. destruct j; reflexivity.
   - destruct (set_nth i v l) as [r|] eqn:E; [|discriminate].
     injection H as <-. destruct j as [|j]; simpl; [reflexivity|].
@@ -53,13 +53,1526 @@ Proof.
     injection H as <-. simpl. apply IH; reflexivity.
 Qed.
 
-Lemma index_of_none x l : index_of x l = None <-> ~ In x l.
+Lemma index_of_in x l : In x l -> exists i, index_of x l = Some i.
 Proof.
-  induction l as [|y l IH]; simpl; [tauto|].
-  destruct (name_eqb_spec x y) as [->|Hn].
-  - split; [discriminate|intros H; exfalso; apply H; left; reflexivity].
-  - destruct (index_of x l) as [i|].
-    + split; [discriminate|]. intros H. exfalso. apply H. right.
-      destruct (proj1 (index_of_none_aux := IH)) ; tauto.
-    + split; [|reflexivity]. intros _ [E|E]; [congruence|]. apply (proj1 IH); [reflexivity|exact E].
+  induction l as [|y l IH]; simpl; [tauto|]. intros H.
+  destruct (name_eqb_spec x y) as [->|Hn]; [eexists; reflexivity|].
+  destruct H as [H|H]; [congruence|].
+  destruct (IH H) as [i Hi]. rewrite Hi. eexists; reflexivity.
 Qed.
+
+Lemma index_of_lt x l i : index_of x l = Some i -> i < length l.
+Proof. intros H. apply index_of_nth in H. apply nth_error_Some. congruence. Qed.
+
+Lemma index_of_nodup x l i : NoDup l -> nth_error l i = Some x -> index_of x l = Some i.
+Proof.
+  revert i; induction l as [|y l IH]; intros i Hnd H; [destruct i; discriminate|].
+  inversion Hnd as [|? ? Hy Hnd']; subst.
+  destruct i as [|i]; simpl in *.
+  - injection H as ->. rewrite name_eqb_refl. reflexivity.
+  - destruct (name_eqb_spec x y) as [->|Hn].
+    + exfalso. apply Hy. eapply nth_error_In; exact H.
+    + rewrite (IH i Hnd' H). reflexivity.
+Qed.
+
+(** * Matrices *)
+
+Definition dims (n : nat) (a : matrix) : Prop :=
+  length a = n /\ forall r, In r a -> length r = n.
+
+Lemma nth_error_repeat_some {A} (x : A) n i : i < n -> nth_error (repeat x n) i = Some x.
+Proof.
+  revert i; induction n as [|n IH]; intros i Hi; [lia|].
+  destruct i as [|i]; simpl; [reflexivity|]. apply IH; lia.
+Qed.
+
+Lemma zeros_dims n : dims n (zeros n).
+Proof.
+  unfold zeros; split; [apply repeat_length|].
+  intros r Hr. apply repeat_spec in Hr. subst r. apply repeat_length.
+Qed.
+
+Lemma zeros_entry n i j : i < n -> j < n -> entry (zeros n) i j = Some 0%Z.
+Proof.
+  intros Hi Hj. unfold entry, zeros. rewrite (nth_error_repeat_some _ Hi).
+  apply nth_error_repeat_some; exact Hj.
+Qed.
+
+Lemma entry_some n a i j : dims n a -> i < n -> j < n -> exists z, entry a i j = Some z.
+Proof.
+  intros [Hl Hr] Hi Hj. unfold entry.
+  destruct (nth_error a i) as [r|] eqn:E.
+  - assert (Hlen : length r = n) by (apply Hr; eapply nth_error_In; exact E).
+    destruct (nth_error r j) as [z|] eqn:Ez; [eexists; reflexivity|].
+    apply nth_error_None in Ez. lia.
+  - apply nth_error_None in E. lia.
+Qed.
+
+Lemma entry_lt n a i j z : dims n a -> entry a i j = Some z -> i < n /\ j < n.
+Proof.
+  intros [Hl Hr] H. unfold entry in H.
+  destruct (nth_error a i) as [r|] eqn:E; [|discriminate].
+  assert (Hlen : length r = n) by (apply Hr; eapply nth_error_In; exact E).
+  split.
+  - rewrite <- Hl. apply nth_error_Some. congruence.
+  - rewrite <- Hlen. apply nth_error_Some. congruence.
+Qed.
+
+Lemma mset_some n a i j v : dims n a -> i < n -> j < n -> exists a', mset a i j v = Some a'.
+Proof.
+  intros [Hl Hr] Hi Hj. unfold mset.
+  destruct (nth_error a i) as [r|] eqn:E.
+  - assert (Hlen : length r = n) by (apply Hr; eapply nth_error_In; exact E).
+    destruct (@set_nth_some _ v r j) as [r' Hr']; [lia|]. rewrite Hr'.
+    apply set_nth_some. lia.
+  - apply nth_error_None in E. lia.
+Qed.
+
+Lemma mset_dims n a i j v a' : dims n a -> mset a i j v = Some a' -> dims n a'.
+Proof.
+  intros [Hl Hr] H. unfold mset in H.
+  destruct (nth_error a i) as [r|] eqn:E; [|discriminate].
+  destruct (set_nth j v r) as [r'|] eqn:Er; [|discriminate].
+  assert (Hlen : length r = n) by (apply Hr; eapply nth_error_In; exact E).
+  split.
+  - rewrite (set_nth_length _ _ _ H). exact Hl.
+  - intros r0 Hr0. apply In_nth_error in Hr0. destruct Hr0 as [i0 Hi0].
+    rewrite (set_nth_get _ _ _ i0 H) in Hi0.
+    destruct (Nat.eqb i i0).
+    + injection Hi0 as <-. rewrite (set_nth_length _ _ _ Er). exact Hlen.
+    + apply Hr. eapply nth_error_In; exact Hi0.
+Qed.
+
+Lemma mset_get a i j v a' i' j' :
+  mset a i j v = Some a' ->
+  entry a' i' j' = if Nat.eqb i i' && Nat.eqb j j' then Some v else entry a i' j'.
+Proof.
+  intros H. unfold mset in H.
+  destruct (nth_error a i) as [r|] eqn:E; [|discriminate].
+  destruct (set_nth j v r) as [r'|] eqn:Er; [|discriminate].
+  unfold entry. rewrite (set_nth_get _ _ _ i' H).
+  destruct (Nat.eqb_spec i i') as [<-|Hn]; simpl.
+  - rewrite E. apply (set_nth_get _ _ _ j' Er).
+  - reflexivity.
+Qed.
+
+(** * The loop of [adjacency_matrix] *)
+
+Section ToMatrix.
+  Variable names : list name.
+  Let n := length names.
+
+  (** edge [e] makes the loop write a 1 at [i, j] *)
+  Definition hit (e : edge) (i j : nat) : Prop :=
+    (index_of (esrc e) names = Some i /\ index_of (edst e) names = Some j
+     /\ (ety e = Dir \/ ety e = Und))
+    \/ (index_of (edst e) names = Some i /\ index_of (esrc e) names = Some j /\ ety e = Und).
+
+  Definition binary_m (a : matrix) : Prop :=
+    forall i j, i < n -> j < n -> entry a i j = Some 0%Z \/ entry a i j = Some 1%Z.
+
+  Lemma to_matrix_fold_err es x : fold_left (to_matrix_step names) es (Err x) = Err x.
+  Proof. induction es as [|e es IH]; simpl; [reflexivity|exact IH]. Qed.
+
+  Lemma to_matrix_step_char a e a' :
+    dims n a -> binary_m a -> to_matrix_step names (Ok a) e = Ok a' ->
+    dims n a' /\ binary_m a' /\ dir_or_und (ety e) = true
+    /\ forall i j, i < n -> j < n ->
+         (entry a' i j = Some 1%Z <-> entry a i j = Some 1%Z \/ hit e i j).
+  Proof.
+    intros Hd Hb H. unfold to_matrix_step in H; simpl in H.
+    destruct (ety e) eqn:Ety; try discriminate.
+    - (* Dir *)
+      destruct (index_of (esrc e) names) as [i0|] eqn:Ei; [|discriminate].
+      destruct (index_of (edst e) names) as [j0|] eqn:Ej; [|discriminate].
+      destruct (mset a i0 j0 1%Z) as [a1|] eqn:E1; [|discriminate].
+      injection H as <-.
+      split; [eapply mset_dims; eassumption|].
+      split; [|split; [reflexivity|]].
+      + intros i j Hi Hj. rewrite (mset_get _ _ _ _ i j E1).
+        destruct (Nat.eqb i0 i && Nat.eqb j0 j); [right; reflexivity|apply Hb; assumption].
+      + intros i j Hi Hj. rewrite (mset_get _ _ _ _ i j E1). unfold hit. rewrite Ei, Ej, Ety.
+        destruct (Nat.eqb_spec i0 i) as [Ea|Ea]; destruct (Nat.eqb_spec j0 j) as [Eb|Eb]; simpl;
+          (split;
+           [ intros Hx;
+             first [ solve [left; exact Hx]
+                   | solve [right; left; repeat split; first [congruence | left; reflexivity]] ]
+           | intros [Hx|[(Hx1 & Hx2 & _)|(Hx1 & Hx2 & Hx3)]];
+             first [exact Hx | reflexivity | exfalso; congruence] ]).
+    - (* Und *)
+      destruct (index_of (esrc e) names) as [i0|] eqn:Ei; [|discriminate].
+      destruct (index_of (edst e) names) as [j0|] eqn:Ej; [|discriminate].
+      destruct (mset a i0 j0 1%Z) as [a1|] eqn:E1; [|discriminate].
+      destruct (mset a1 j0 i0 1%Z) as [a2|] eqn:E2; [|discriminate].
+      injection H as <-.
+      assert (Hd1 : dims n a1) by (eapply mset_dims; eassumption).
+      split; [eapply mset_dims; eassumption|].
+      split; [|split; [reflexivity|]].
+      + intros i j Hi Hj. rewrite (mset_get _ _ _ _ i j E2), (mset_get _ _ _ _ i j E1).
+        destruct (Nat.eqb j0 i && Nat.eqb i0 j); [right; reflexivity|].
+        destruct (Nat.eqb i0 i && Nat.eqb j0 j); [right; reflexivity|apply Hb; assumption].
+      + intros i j Hi Hj. rewrite (mset_get _ _ _ _ i j E2), (mset_get _ _ _ _ i j E1).
+        unfold hit. rewrite Ei, Ej, Ety.
+        destruct (Nat.eqb_spec j0 i) as [Ea|Ea]; destruct (Nat.eqb_spec i0 j) as [Eb|Eb];
+          destruct (Nat.eqb_spec i0 i) as [Ec|Ec]; destruct (Nat.eqb_spec j0 j) as [Ed|Ed]; simpl;
+          (split;
+           [ intros Hx;
+             first [ solve [left; exact Hx]
+                   | solve [right; left; repeat split; first [congruence | right; reflexivity]]
+                   | solve [right; right; repeat split; congruence] ]
+           | intros [Hx|[(Hx1 & Hx2 & _)|(Hx1 & Hx2 & _)]];
+             first [exact Hx | reflexivity | exfalso; congruence] ]).
+  Qed.
+
+  Lemma to_matrix_fold_char es : forall a0 a,
+    dims n a0 -> binary_m a0 -> fold_left (to_matrix_step names) es (Ok a0) = Ok a ->
+    dims n a /\ binary_m a /\ (forall e, In e es -> dir_or_und (ety e) = true)
+    /\ forall i j, i < n -> j < n ->
+         (entry a i j = Some 1%Z <-> entry a0 i j = Some 1%Z \/ exists e, In e es /\ hit e i j).
+  Proof.
+    induction es as [|e es IH]; intros a0 a Hd Hb H; cbn [fold_left] in H.
+    - injection H as <-. split; [exact Hd|]. split; [exact Hb|]. split; [intros e []|].
+      intros i j _ _. split; [tauto|]. intros [H|(e & [] & _)]. exact H.
+    - destruct (to_matrix_step names (Ok a0) e) as [a1|x] eqn:E1;
+        [|rewrite to_matrix_fold_err in H; discriminate].
+      destruct (to_matrix_step_char _ Hd Hb E1) as (Hd1 & Hb1 & Hty & Hc1).
+      destruct (IH _ _ Hd1 Hb1 H) as (Hd2 & Hb2 & Htys & Hc2).
+      split; [exact Hd2|]. split; [exact Hb2|]. split.
+      + intros e' [<-|He']; [exact Hty|apply Htys; exact He'].
+      + intros i j Hi Hj. rewrite (Hc2 i j Hi Hj), (Hc1 i j Hi Hj). split.
+        * intros [[H0|H0]|(e' & He' & Hh)]; [left; exact H0| |].
+          -- right. exists e. split; [left; reflexivity|exact H0].
+          -- right. exists e'. split; [right; exact He'|exact Hh].
+        * intros [H0|(e' & [<-|He'] & Hh)]; [left; left; exact H0| |].
+          -- left; right; exact Hh.
+          -- right. exists e'. split; assumption.
+  Qed.
+
+  Lemma to_matrix_step_ok a e :
+    dims n a -> In (esrc e) names -> In (edst e) names -> dir_or_und (ety e) = true ->
+    exists a', to_matrix_step names (Ok a) e = Ok a'.
+  Proof.
+    intros Hd Hs Hdst Hty. unfold to_matrix_step; simpl.
+    destruct (index_of_in _ _ Hs) as [i Hi]. destruct (index_of_in _ _ Hdst) as [j Hj].
+    pose proof (index_of_lt _ _ Hi) as Hil. pose proof (index_of_lt _ _ Hj) as Hjl.
+    rewrite Hi, Hj.
+    destruct (mset_some 1%Z Hd Hil Hjl) as [a1 Ha1].
+    destruct (ety e); try discriminate; rewrite Ha1.
+    - eexists; reflexivity.
+    - assert (Hd1 : dims n a1) by (eapply mset_dims; eassumption).
+      destruct (mset_some 1%Z Hd1 Hjl Hil) as [a2 Ha2]. rewrite Ha2. eexists; reflexivity.
+  Qed.
+
+  Lemma to_matrix_fold_ok es : forall a0,
+    dims n a0 -> binary_m a0 ->
+    (forall e, In e es -> In (esrc e) names /\ In (edst e) names /\ dir_or_und (ety e) = true) ->
+    exists a, fold_left (to_matrix_step names) es (Ok a0) = Ok a.
+  Proof.
+    induction es as [|e es IH]; intros a0 Hd Hb Hes; cbn [fold_left]; [eexists; reflexivity|].
+    destruct (Hes e (or_introl eq_refl)) as (Hs & Hdst & Hty).
+    destruct (to_matrix_step_ok _ Hd Hs Hdst Hty) as [a1 Ha1]. rewrite Ha1.
+    destruct (to_matrix_step_char _ Hd Hb Ha1) as (Hd1 & Hb1 & _ & _).
+    apply IH; [exact Hd1|exact Hb1|]. intros e' He'. apply Hes. right; exact He'.
+  Qed.
+
+  Lemma to_matrix_fold_refuse es : forall a0,
+    dims n a0 -> binary_m a0 ->
+    (forall e, In e es -> In (esrc e) names /\ In (edst e) names) ->
+    (exists e, In e es /\ dir_or_und (ety e) = false) ->
+    fold_left (to_matrix_step names) es (Ok a0) = Err EType.
+  Proof.
+    induction es as [|e es IH]; intros a0 Hd Hb Hes (b & Hb_in & Hbad); [destruct Hb_in|].
+    cbn [fold_left]. destruct (dir_or_und (ety e)) eqn:Hty.
+    - destruct (Hes e (or_introl eq_refl)) as (Hs & Hdst).
+      destruct (to_matrix_step_ok _ Hd Hs Hdst Hty) as [a1 Ha1]. rewrite Ha1.
+      destruct (to_matrix_step_char _ Hd Hb Ha1) as (Hd1 & Hb1 & _ & _).
+      apply IH; [exact Hd1|exact Hb1| |].
+      + intros e' He'. apply Hes. right; exact He'.
+      + destruct Hb_in as [<-|Hin]; [congruence|]. exists b. split; assumption.
+    - replace (to_matrix_step names (Ok a0) e) with (@Err matrix EType).
+      + apply to_matrix_fold_err.
+      + unfold to_matrix_step; simpl. destruct (ety e); try discriminate; reflexivity.
+  Qed.
+End ToMatrix.
+
+(** * The read views under the invariant *)
+
+Lemma v_node_names_perm g : Permutation (node_ids g) (v_node_names g).
+Proof.
+  unfold node_ids, v_node_names, nodes_sorted. apply Permutation_map. apply isort_perm.
+Qed.
+
+Lemma v_node_names_in g x : In x (v_node_names g) <-> In x (node_ids g).
+Proof.
+  split; apply Permutation_in; [symmetry|]; apply v_node_names_perm.
+Qed.
+
+Lemma v_node_names_length g : length (v_node_names g) = length (gnodes g).
+Proof. unfold v_node_names, nodes_sorted. rewrite map_length. apply isort_length. Qed.
+
+Lemma v_edges_in g e : In e (v_edges g) <-> In e (gsrc g).
+Proof. unfold v_edges, sorted_edges. apply isort_in. Qed.
+
+Lemma v_edges_perm g : Permutation (gsrc g) (v_edges g).
+Proof. unfold v_edges, sorted_edges. apply isort_perm. Qed.
+
+Section UnderInv.
+  Variable parse : name -> option (name * Z).
+  Variable k : kind.
+  Variable g : graph.
+  Hypothesis HI : Inv parse k g.
+
+  Lemma v_node_names_nodup : NoDup (v_node_names g).
+  Proof.
+    eapply Permutation_NoDup; [apply v_node_names_perm|]. apply (inv_nodup_nodes HI).
+  Qed.
+
+  Lemma names_index ni i :
+    nth_error (v_node_names g) i = Some ni <-> index_of ni (v_node_names g) = Some i.
+  Proof.
+    split; [apply index_of_nodup, v_node_names_nodup|apply index_of_nth].
+  Qed.
+
+  Lemma v_edges_endpoints e :
+    In e (v_edges g) -> In (esrc e) (v_node_names g) /\ In (edst e) (v_node_names g).
+  Proof.
+    intros He. apply v_edges_in in He. rewrite !v_node_names_in.
+    apply (inv_endpoints HI); exact He.
+  Qed.
+End UnderInv.
+
+(** * C08: the adjacency matrix *)
+
+(** [A[i, j] = 1] exactly when there is an edge [n_i -> n_j], [n_i -- n_j] or [n_j -- n_i],
+    under the node order returned by [to_numpy]; every entry is 0 or 1 and the matrix is
+    [n x n]. *)
+Theorem matrix_entry parse k g a :
+  Inv parse k g -> to_matrix g = Ok a ->
+  forall i j ni nj,
+    nth_error (v_node_names g) i = Some ni -> nth_error (v_node_names g) j = Some nj ->
+    (entry a i j = Some 1%Z <->
+     exists e, In e (gsrc g) /\
+       ((edge_key e = (ni, nj) /\ (ety e = Dir \/ ety e = Und))
+        \/ (edge_key e = (nj, ni) /\ ety e = Und))).
+Proof.
+  intros HI Ha i j ni nj Hi Hj. unfold to_matrix in Ha.
+  pose proof (nth_error_Some (v_node_names g) i) as Hil.
+  pose proof (nth_error_Some (v_node_names g) j) as Hjl.
+  assert (Hi' : i < length (v_node_names g)) by (apply Hil; congruence).
+  assert (Hj' : j < length (v_node_names g)) by (apply Hjl; congruence).
+  destruct (@to_matrix_fold_char (v_node_names g) (v_edges g) _ _ (zeros_dims _)
+              (fun i j Hi Hj => or_introl (zeros_entry Hi Hj)) Ha) as (_ & _ & _ & Hc).
+  rewrite (Hc i j Hi' Hj'). rewrite (zeros_entry Hi' Hj').
+  split.
+  - intros [H|(e & He & Hh)]; [discriminate|].
+    exists e. split; [apply v_edges_in; exact He|].
+    unfold hit in Hh. rewrite <- !(names_index HI) in Hh. unfold edge_key.
+    destruct Hh as [(H1 & H2 & H3)|(H1 & H2 & H3)]; [left|right]; split; try exact H3;
+      f_equal; congruence.
+  - intros (e & He & Hh). right. exists e. split; [apply v_edges_in; exact He|].
+    unfold hit. rewrite <- !(names_index HI). unfold edge_key in Hh.
+    destruct Hh as [(H1 & H3)|(H1 & H3)]; injection H1 as H1 H2; [left|right]; subst; auto.
+Qed.
+
+Theorem matrix_shape parse k g a :
+  Inv parse k g -> to_matrix g = Ok a ->
+  dims (length (v_node_names g)) a
+  /\ forall i j, i < length (v_node_names g) -> j < length (v_node_names g) ->
+       entry a i j = Some 0%Z \/ entry a i j = Some 1%Z.
+Proof.
+  intros HI Ha. unfold to_matrix in Ha.
+  destruct (@to_matrix_fold_char (v_node_names g) (v_edges g) _ _ (zeros_dims _)
+              (fun i j Hi Hj => or_introl (zeros_entry Hi Hj)) Ha) as (Hd & Hb & _ & _).
+  split; assumption.
+Qed.
+
+Definition only_dir_und (g : graph) : Prop :=
+  forall e, In e (gsrc g) -> ety e = Dir \/ ety e = Und.
+
+Lemma dir_or_und_true t : dir_or_und t = true <-> t = Dir \/ t = Und.
+Proof. destruct t; simpl; split; intros H; try discriminate; auto; destruct H; discriminate. Qed.
+
+Lemma dir_or_und_false t : dir_or_und t = false <-> t <> Dir /\ t <> Und.
+Proof.
+  destruct t; simpl; split; intros H; try discriminate; try (split; discriminate);
+    destruct H as [H1 H2]; congruence.
+Qed.
+
+(** a representable graph is converted *)
+Theorem to_matrix_total parse k g :
+  Inv parse k g -> only_dir_und g -> exists a, to_matrix g = Ok a.
+Proof.
+  intros HI Ho. unfold to_matrix.
+  apply to_matrix_fold_ok; [apply zeros_dims|intros i j Hi Hj; left; apply zeros_entry; assumption|].
+  intros e He. destruct (v_edges_endpoints HI _ He) as [Hs Hd].
+  split; [exact Hs|]. split; [exact Hd|]. apply dir_or_und_true, Ho, v_edges_in, He.
+Qed.
+
+Theorem to_numpy_total parse k g :
+  Inv parse k g -> only_dir_und g -> exists a, to_numpy g = Ok (a, v_node_names g).
+Proof.
+  intros HI Ho. destruct (to_matrix_total HI Ho) as [a Ha]. exists a. unfold to_numpy.
+  replace (existsb (fun e => negb (dir_or_und (ety e))) (v_edges g)) with false.
+  - rewrite Ha. reflexivity.
+  - symmetry. apply not_true_is_false. intros H. apply existsb_exists in H.
+    destruct H as (e & He & Hb). apply v_edges_in in He. apply Ho, dir_or_und_true in He.
+    rewrite He in Hb. discriminate.
+Qed.
+
+Lemma to_numpy_ok_inv g a names :
+  to_numpy g = Ok (a, names) ->
+  to_matrix g = Ok a /\ names = v_node_names g
+  /\ forall e, In e (gsrc g) -> ety e = Dir \/ ety e = Und.
+Proof.
+  unfold to_numpy. intros H.
+  destruct (existsb (fun e => negb (dir_or_und (ety e))) (v_edges g)) eqn:E; [discriminate|].
+  destruct (to_matrix g) as [a'|x]; simpl in H; [|discriminate].
+  injection H as <- <-. split; [reflexivity|]. split; [reflexivity|].
+  intros e He. apply dir_or_und_true.
+  destruct (dir_or_und (ety e)) eqn:Hd; [reflexivity|]. exfalso.
+  assert (Hex : existsb (fun e => negb (dir_or_und (ety e))) (v_edges g) = true).
+  { apply existsb_exists. exists e. split; [apply v_edges_in; exact He|]. rewrite Hd. reflexivity. }
+  congruence.
+Qed.
+
+(** a graph holding an edge that is neither [->] nor [--] is refused with TypeError: by
+    [to_numpy] whatever the state, by [adjacency_matrix] in every state satisfying the
+    invariant (so no edge is ever dropped or retyped) *)
+Theorem unrepresentable_refused g :
+  (exists e, In e (gsrc g) /\ ety e <> Dir /\ ety e <> Und) -> to_numpy g = Err EType.
+Proof.
+  intros (e & He & Hty). unfold to_numpy.
+  replace (existsb (fun e => negb (dir_or_und (ety e))) (v_edges g)) with true; [reflexivity|].
+  symmetry. apply existsb_exists. exists e. split; [apply v_edges_in; exact He|].
+  apply dir_or_und_false in Hty. rewrite Hty. reflexivity.
+Qed.
+
+Theorem unrepresentable_refused_matrix parse k g :
+  Inv parse k g ->
+  (exists e, In e (gsrc g) /\ ety e <> Dir /\ ety e <> Und) -> to_matrix g = Err EType.
+Proof.
+  intros HI (e & He & Hty). unfold to_matrix.
+  apply to_matrix_fold_refuse; [apply zeros_dims|intros i j Hi Hj; left; apply zeros_entry; assumption| |].
+  - intros e' He'. apply (v_edges_endpoints HI _ He').
+  - exists e. split; [apply v_edges_in; exact He|apply dir_or_und_false; exact Hty].
+Qed.
+
+(** networkx / GML: anything but a fully directed or fully undirected graph is refused with
+    GraphConversionError *)
+Lemma forallb_false_of {A} (p : A -> bool) l x : In x l -> p x = false -> forallb p l = false.
+Proof.
+  intros Hx Hp. apply not_true_is_false. intros H. rewrite forallb_forall in H.
+  rewrite (H x Hx) in Hp. discriminate.
+Qed.
+
+Theorem unrepresentable_refused_nx g :
+  (exists e, In e (gsrc g) /\ ety e <> Dir /\ ety e <> Und)
+  \/ (exists e1 e2, In e1 (gsrc g) /\ In e2 (gsrc g) /\ ety e1 = Dir /\ ety e2 = Und) ->
+  to_nx g = Err EConv /\ to_gml_nx g = Err EConv.
+Proof.
+  intros H.
+  assert (Hfd : fully_directed g = false /\ fully_undirected g = false).
+  { destruct H as [(e & He & H1 & H2)|(e1 & e2 & He1 & He2 & H1 & H2)].
+    - apply v_edges_in in He. split; eapply forallb_false_of; try exact He;
+        destruct (ety e); simpl; congruence.
+    - apply v_edges_in in He1, He2. split; eapply forallb_false_of.
+      + exact He2. + rewrite H2; reflexivity. + exact He1. + rewrite H1; reflexivity. }
+  destruct Hfd as [Hfd Hfu].
+  assert (Hnx : to_nx g = Err EConv) by (unfold to_nx; rewrite Hfd, Hfu; reflexivity).
+  split; [exact Hnx|]. unfold to_gml_nx. rewrite Hnx. destruct (gml_message_nonempty g); reflexivity.
+Qed.
+
+(** [to_gml_string] refuses exactly when [to_networkx] does *)
+Theorem to_gml_refuses_iff g x : to_gml_nx g = Err x <-> to_nx g = Err x.
+Proof.
+  unfold to_gml_nx, gml_message_nonempty, to_nx.
+  destruct (fully_directed g), (fully_undirected g); simpl; try tauto.
+  destruct (existsb _ _); tauto.
+Qed.
+
+Theorem to_nx_ok g :
+  (forall e, In e (gsrc g) -> ety e = Dir) \/ (forall e, In e (gsrc g) -> ety e = Und) ->
+  exists dir, to_nx g = Ok (dir, v_node_names g, map edge_key (v_edges g))
+    /\ (dir = true -> forall e, In e (gsrc g) -> ety e = Dir)
+    /\ (dir = false -> forall e, In e (gsrc g) -> ety e = Und).
+Proof.
+  intros H. unfold to_nx.
+  destruct (fully_directed g) eqn:Hfd.
+  - exists true. simpl. split; [reflexivity|]. split; [|discriminate].
+    intros _ e He. unfold fully_directed in Hfd. rewrite forallb_forall in Hfd.
+    apply v_edges_in in He. specialize (Hfd e He). destruct (etype_eqb_spec (ety e) Dir); congruence.
+  - destruct (fully_undirected g) eqn:Hfu.
+    + exists false. simpl. split; [reflexivity|]. split; [discriminate|].
+      intros _ e He. unfold fully_undirected in Hfu. rewrite forallb_forall in Hfu.
+      apply v_edges_in in He. specialize (Hfu e He). destruct (etype_eqb_spec (ety e) Und); congruence.
+    + exfalso. destruct H as [H|H].
+      * assert (fully_directed g = true); [|congruence].
+        apply forallb_forall. intros e He. apply v_edges_in in He. rewrite (H e He). reflexivity.
+      * assert (fully_undirected g = true); [|congruence].
+        apply forallb_forall. intros e He. apply v_edges_in in He. rewrite (H e He). reflexivity.
+Qed.
+
+(** * C08: malformed matrices are refused (for ALL such inputs, both classes) *)
+
+Lemma is_square_true_iff a : is_square a = true <-> dims (length a) a.
+Proof.
+  unfold is_square, dims. rewrite forallb_forall. split.
+  - intros H. split; [reflexivity|]. intros r Hr. apply Nat.eqb_eq, H, Hr.
+  - intros [_ H] r Hr. apply Nat.eqb_eq, H, Hr.
+Qed.
+
+Lemma forallb_false_ex {A} (p : A -> bool) l :
+  forallb p l = false -> exists x, In x l /\ p x = false.
+Proof.
+  induction l as [|x l IH]; simpl; [discriminate|].
+  destruct (p x) eqn:E; simpl.
+  - intros H. destruct (IH H) as (y & Hy & Hp). exists y. split; [right; exact Hy|exact Hp].
+  - intros _. exists x. split; [left; reflexivity|exact E].
+Qed.
+
+Lemma is_square_false_iff a :
+  is_square a = false <-> exists r, In r a /\ length r <> length a.
+Proof.
+  split.
+  - intros H. unfold is_square in H. apply forallb_false_ex in H.
+    destruct H as (r & Hr & Hl). exists r. split; [exact Hr|]. apply Nat.eqb_neq; exact Hl.
+  - intros (r & Hr & Hl). apply not_true_is_false. intros H.
+    apply is_square_true_iff in H. destruct H as [_ H]. apply Hl, H, Hr.
+Qed.
+
+Lemma is_binary_false_iff a :
+  is_binary a = false <->
+  exists i j z, entry a i j = Some z /\ z <> 0%Z /\ z <> 1%Z.
+Proof.
+  split.
+  - intros H. unfold is_binary in H. apply forallb_false_ex in H.
+    destruct H as (r & Hr & Hrb). apply forallb_false_ex in Hrb.
+    destruct Hrb as (z & Hz & Hzb).
+    apply In_nth_error in Hr. destruct Hr as [i Hi].
+    apply In_nth_error in Hz. destruct Hz as [j Hj].
+    exists i, j, z. unfold entry. rewrite Hi. split; [exact Hj|].
+    apply orb_false_iff in Hzb. destruct Hzb as [H0 H1].
+    apply Z.eqb_neq in H0, H1. split; assumption.
+  - intros (i & j & z & He & H0 & H1). apply not_true_is_false. intros H.
+    unfold is_binary in H. rewrite forallb_forall in H. unfold entry in He.
+    destruct (nth_error a i) as [r|] eqn:Er; [|discriminate].
+    specialize (H r (nth_error_In _ _ Er)). rewrite forallb_forall in H.
+    specialize (H z (nth_error_In _ _ He)).
+    apply orb_true_iff in H. destruct H as [H|H]; apply Z.eqb_eq in H; contradiction.
+Qed.
+
+Section Malformed.
+  Variable parse : name -> option (name * Z).
+  Variable fmt : name -> Z -> option name.
+  Variable k : kind.
+
+  Theorem malformed_not_square a names v :
+    is_square a = false -> from_matrix parse fmt k a names v = Err EInvalidAdj.
+  Proof. intros H. unfold from_matrix. rewrite H. reflexivity. Qed.
+
+  Theorem malformed_not_binary a names v :
+    is_binary a = false -> from_matrix parse fmt k a names v = Err EInvalidAdj.
+  Proof.
+    intros H. unfold from_matrix. rewrite H. destruct (is_square a); reflexivity.
+  Qed.
+
+  Theorem malformed_name_count a l v :
+    is_square a = true -> is_binary a = true -> length l <> length a ->
+    from_matrix parse fmt k a (Some l) v = Err EAssert.
+  Proof.
+    intros Hs Hb Hl. unfold from_matrix. rewrite Hs, Hb. simpl.
+    apply Nat.eqb_neq in Hl. rewrite Hl. reflexivity.
+  Qed.
+
+  (** the three refusals in the order the code performs them; stated on the matrix itself:
+      a row of the wrong length, an entry other than 0 and 1, a wrong number of names *)
+  Theorem malformed_refused a names v :
+    (exists r, In r a /\ length r <> length a)
+    \/ (exists i j z, entry a i j = Some z /\ z <> 0%Z /\ z <> 1%Z)
+    \/ (exists l, names = Some l /\ length l <> length a) ->
+    from_matrix parse fmt k a names v = Err EInvalidAdj
+    \/ from_matrix parse fmt k a names v = Err EAssert.
+  Proof.
+    intros [H|[H|(l & -> & H)]].
+    - left. apply malformed_not_square, is_square_false_iff, H.
+    - left. apply malformed_not_binary, is_binary_false_iff, H.
+    - destruct (is_square a) eqn:Hs; [|left; apply malformed_not_square; exact Hs].
+      destruct (is_binary a) eqn:Hb; [|left; apply malformed_not_binary; exact Hb].
+      right. apply malformed_name_count; assumption.
+  Qed.
+
+  (** conversely, whatever [from_matrix] accepts is a square binary matrix with the right
+      number of names *)
+  Theorem from_matrix_ok_wellformed a names v g :
+    from_matrix parse fmt k a names v = Ok g ->
+    dims (length a) a
+    /\ (forall i j z, entry a i j = Some z -> z = 0%Z \/ z = 1%Z)
+    /\ (forall l, names = Some l -> length l = length a).
+  Proof.
+    intros H. split; [|split].
+    - apply is_square_true_iff. destruct (is_square a) eqn:E; [reflexivity|].
+      rewrite (@malformed_not_square a names v E) in H. discriminate.
+    - intros i j z He. destruct (Z.eq_dec z 0) as [|H0]; [left; assumption|].
+      destruct (Z.eq_dec z 1) as [|H1]; [right; assumption|]. exfalso.
+      assert (Hb : is_binary a = false)
+        by (apply is_binary_false_iff; exists i, j, z; repeat split; assumption).
+      rewrite (@malformed_not_binary a names v Hb) in H. discriminate.
+    - intros l ->. destruct (Nat.eq_dec (length l) (length a)) as [|Hn]; [assumption|]. exfalso.
+      destruct (is_square a) eqn:Hs; [|rewrite (@malformed_not_square a (Some l) v Hs) in H; discriminate].
+      destruct (is_binary a) eqn:Hb; [|rewrite (@malformed_not_binary a (Some l) v Hb) in H; discriminate].
+      rewrite (@malformed_name_count a l v Hs Hb Hn) in H. discriminate.
+  Qed.
+End Malformed.
+
+(** * Lookups on the state *)
+
+Lemma find_node_some_in id ns n : find_node id ns = Some n -> In n ns /\ nid n = id.
+Proof.
+  induction ns as [|x ns IH]; simpl; [discriminate|].
+  destruct (name_eqb_spec id (nid x)) as [->|Hn].
+  - intros [= ->]. split; [left; reflexivity|reflexivity].
+  - intros H. destruct (IH H) as [H1 H2]. split; [right; exact H1|exact H2].
+Qed.
+
+Lemma find_node_none id ns : find_node id ns = None <-> ~ In id (map nid ns).
+Proof.
+  induction ns as [|x ns IH]; simpl; [tauto|].
+  destruct (name_eqb_spec id (nid x)) as [->|Hn].
+  - split; [discriminate|]. intros H. exfalso. apply H. left; reflexivity.
+  - rewrite IH. split; [intros H [E|E]; [congruence|contradiction]|tauto].
+Qed.
+
+Lemma node_exists_in g id : node_exists g id = true <-> In id (node_ids g).
+Proof.
+  unfold node_exists, get_node, node_ids.
+  destruct (find_node id (gnodes g)) as [n|] eqn:E.
+  - split; [intros _|reflexivity]. apply find_node_some_in in E. destruct E as [Hin <-].
+    apply in_map; exact Hin.
+  - apply find_node_none in E. split; [discriminate|contradiction].
+Qed.
+
+Lemma find_edge_none s d es : find_edge s d es = None <-> ~ In (s, d) (map edge_key es).
+Proof.
+  induction es as [|e es IH]; simpl; [tauto|]. unfold edge_key at 1.
+  destruct (name_eqb_spec s (esrc e)) as [->|Hn]; simpl.
+  - destruct (name_eqb_spec d (edst e)) as [->|Hn2].
+    + split; [discriminate|]. intros H. exfalso. apply H. left; reflexivity.
+    + rewrite IH. split; [intros H [E|E]; [congruence|contradiction]|tauto].
+  - rewrite IH. split; [intros H [E|E]; [congruence|contradiction]|tauto].
+Qed.
+
+Lemma edge_at_none g s d : edge_at g s d = None <-> ~ In (s, d) (edge_keys g).
+Proof. apply find_edge_none. Qed.
+
+Lemma update_node_ids f id ns :
+  (forall n, nid (f n) = nid n) -> map nid (update_node f id ns) = map nid ns.
+Proof.
+  intros Hf. unfold update_node. rewrite map_map. apply map_ext. intros n.
+  destruct (name_eqb id (nid n)); [apply Hf|reflexivity].
+Qed.
+
+Lemma insert_edge_ids g e : node_ids (insert_edge g e) = node_ids g.
+Proof.
+  unfold node_ids, insert_edge; simpl. destruct (etype_eqb (ety e) Dir); [|reflexivity].
+  rewrite !update_node_ids; reflexivity || (intros n; reflexivity).
+Qed.
+
+Lemma insert_edge_src g e : gsrc (insert_edge g e) = gsrc g ++ [e].
+Proof. reflexivity. Qed.
+
+(** * The plain class: what the construction loop of [from_adjacency_matrix] builds *)
+
+Definition fresh_node (id : name) : node :=
+  {| nid := id; nvt := VUnspec; nmeta := []; ninb := []; noutb := [] |}.
+
+Definition mk_edge (s d : name) (ty : etype) : edge :=
+  {| esrc := s; edst := d; ety := ty; emeta := [] |}.
+
+(** the edge (if any) that the pair [(i, j)] of the loop contributes *)
+Definition edge_of (a : matrix) (nodes : list name) (p : nat * nat) : list edge :=
+  match entry a (fst p) (snd p), entry a (snd p) (fst p),
+        nth_error nodes (fst p), nth_error nodes (snd p) with
+  | Some x, Some y, Some ni, Some nj =>
+      if negb (Z.eqb x 0) && Z.eqb y 0 then [mk_edge ni nj Dir]
+      else if Z.eqb x 0 && negb (Z.eqb y 0) then [mk_edge nj ni Dir]
+      else if negb (Z.eqb x 0) && negb (Z.eqb y 0) then [mk_edge ni nj Und]
+      else []
+  | _, _, _, _ => []
+  end.
+
+Section PlainLoop.
+  Variable parse : name -> option (name * Z).
+  Variable fmt : name -> Z -> option name.
+
+  Lemma add_nodes_plain ids : forall g,
+    NoDup ids -> (forall x, In x ids -> ~ In x (node_ids g)) ->
+    exists g', add_nodes_from parse Plain g ids = (Ok g', g')
+               /\ gnodes g' = gnodes g ++ map fresh_node ids
+               /\ gsrc g' = gsrc g /\ gdst g' = gdst g.
+  Proof.
+    unfold add_nodes_from.
+    induction ids as [|x ids IH]; intros g Hnd Hfresh.
+    - exists g. simpl. rewrite app_nil_r. auto.
+    - inversion Hnd as [|? ? Hx Hnd']; subst. cbn [fold_left].
+      assert (Hne : node_exists g x = false).
+      { apply not_true_is_false. rewrite node_exists_in. apply Hfresh. left; reflexivity. }
+      unfold add_node_id at 2. rewrite Hne. cbn [mk_node bind].
+      destruct (IH (push_node g (fresh_node x)) Hnd') as (g' & Hg' & Hn' & Hs' & Hd').
+      + intros y Hy. unfold node_ids, push_node; simpl. rewrite map_app, in_app_iff. simpl.
+        intros [H|[H|[]]]; [apply (Hfresh y (or_intror Hy)); exact H|].
+        subst y. apply Hx; exact Hy.
+      + exists g'. split; [exact Hg'|]. split; [|split; assumption].
+        rewrite Hn'. simpl. rewrite <- app_assoc. reflexivity.
+  Qed.
+
+  Lemma add_edge_plain g s d ty :
+    In s (node_ids g) -> In d (node_ids g) -> s <> d ->
+    ~ In (s, d) (edge_keys g) -> ~ In (d, s) (edge_keys g) ->
+    add_edge_op parse fmt Plain g s d ty = Ok (insert_edge g (mk_edge s d ty)).
+  Proof.
+    intros Hs Hd Hne H1 H2.
+    unfold add_edge_op, run_op, add_edge, add_edge_try. cbn [fst snd str_ep].
+    apply name_eqb_neq in Hne. rewrite Hne.
+    apply edge_at_none in H1. apply edge_at_none in H2. rewrite H1.
+    unfold add_endpoint, str_ep. cbn [fst snd].
+    rewrite (proj2 (node_exists_in g s) Hs), (proj2 (node_exists_in g d) Hd).
+    cbn [orient]. unfold set_edge. rewrite H1, H2. reflexivity.
+  Qed.
+End PlainLoop.
+
+(** [itertools.combinations(range(n), 2)] *)
+Lemma in_pairs n i j : In (i, j) (pairs n) <-> i < j < n.
+Proof.
+  unfold pairs. rewrite in_flat_map. split.
+  - intros (x & Hx & Hin). apply in_map_iff in Hin. destruct Hin as (y & E & Hy).
+    injection E as <- <-. apply in_seq in Hx, Hy. lia.
+  - intros H. exists i. split; [apply in_seq; lia|]. apply in_map_iff.
+    exists j. split; [reflexivity|apply in_seq; lia].
+Qed.
+
+Lemma NoDup_app_intro {A} (l1 l2 : list A) :
+  NoDup l1 -> NoDup l2 -> (forall z, In z l1 -> ~ In z l2) -> NoDup (l1 ++ l2).
+Proof.
+  induction l1 as [|x l1 IH]; intros H1 H2 Hd; simpl; [exact H2|].
+  inversion H1 as [|? ? Hx H1']; subst. constructor.
+  - rewrite in_app_iff. intros [H|H]; [contradiction|]. apply (Hd x (or_introl eq_refl) H).
+  - apply IH; [exact H1'|exact H2|]. intros z Hz. apply Hd. right; exact Hz.
+Qed.
+
+Lemma NoDup_flat_map {A B} (f : A -> list B) l :
+  NoDup l -> (forall x, In x l -> NoDup (f x)) ->
+  (forall x y z, In x l -> In y l -> In z (f x) -> In z (f y) -> x = y) ->
+  NoDup (flat_map f l).
+Proof.
+  induction l as [|x l IH]; intros Hnd Hf Hdis; simpl; [constructor|].
+  inversion Hnd as [|? ? Hx Hnd']; subst. apply NoDup_app_intro.
+  - apply Hf. left; reflexivity.
+  - apply IH; [exact Hnd'| |].
+    + intros y Hy. apply Hf. right; exact Hy.
+    + intros y1 y2 z H1 H2. apply Hdis; right; assumption.
+  - intros z Hz Hz'. apply in_flat_map in Hz'. destruct Hz' as (y & Hy & Hzy).
+    assert (x = y) by (eapply Hdis; [left; reflexivity|right; exact Hy|exact Hz|exact Hzy]).
+    subst y. contradiction.
+Qed.
+
+Lemma pairs_nodup n : NoDup (pairs n).
+Proof.
+  unfold pairs. apply NoDup_flat_map.
+  - apply seq_NoDup.
+  - intros i _. generalize (seq_NoDup (n - S i) (S i)). generalize (seq (S i) (n - S i)).
+    intros l Hl. induction Hl as [|j l Hj Hl IH]; simpl; constructor; [|exact IH].
+    rewrite in_map_iff. intros (j' & E & Hj'). injection E as ->. contradiction.
+  - intros x y z _ _ Hx Hy. apply in_map_iff in Hx, Hy.
+    destruct Hx as (j1 & <- & _). destruct Hy as (j2 & E & _). injection E as -> _. reflexivity.
+Qed.
+
+Lemma nodup_nth_inj (l : list name) i j x :
+  NoDup l -> nth_error l i = Some x -> nth_error l j = Some x -> i = j.
+Proof.
+  intros Hnd Hi Hj. apply (proj1 (NoDup_nth_error l) Hnd).
+  - apply nth_error_Some. congruence.
+  - congruence.
+Qed.
+
+Section PlainLoop2.
+  Variable parse : name -> option (name * Z).
+  Variable fmt : name -> Z -> option name.
+  Variable a : matrix.
+  Variable nodes : list name.
+  Hypothesis Hdims : dims (length nodes) a.
+  Hypothesis Hnodup : NoDup nodes.
+
+  Lemma edge_of_key p e :
+    In e (edge_of a nodes p) ->
+    exists ni nj, nth_error nodes (fst p) = Some ni /\ nth_error nodes (snd p) = Some nj
+                  /\ (edge_key e = (ni, nj) \/ edge_key e = (nj, ni)).
+  Proof.
+    unfold edge_of.
+    destruct (entry a (fst p) (snd p)) as [x|]; [|intros []].
+    destruct (entry a (snd p) (fst p)) as [y|]; [|intros []].
+    destruct (nth_error nodes (fst p)) as [ni|]; [|intros []].
+    destruct (nth_error nodes (snd p)) as [nj|]; [|intros []].
+    intros He. exists ni, nj. split; [reflexivity|]. split; [reflexivity|].
+    destruct (negb (Z.eqb x 0) && Z.eqb y 0); [destruct He as [<-|[]]; left; reflexivity|].
+    destruct (Z.eqb x 0 && negb (Z.eqb y 0)); [destruct He as [<-|[]]; right; reflexivity|].
+    destruct (negb (Z.eqb x 0) && negb (Z.eqb y 0)); [destruct He as [<-|[]]; left; reflexivity|].
+    destruct He.
+  Qed.
+
+  Lemma edge_step_plain g p :
+    fst p < snd p -> snd p < length nodes ->
+    (forall x, In x nodes -> In x (node_ids g)) ->
+    (forall e ni nj, In e (gsrc g) ->
+       nth_error nodes (fst p) = Some ni -> nth_error nodes (snd p) = Some nj ->
+       edge_key e <> (ni, nj) /\ edge_key e <> (nj, ni)) ->
+    exists g', edge_step parse fmt Plain a nodes (Ok g) p = Ok g'
+               /\ gsrc g' = gsrc g ++ edge_of a nodes p /\ node_ids g' = node_ids g.
+  Proof.
+    intros Hlt Hj Hin Hfresh. unfold edge_step, edge_of. cbn [bind].
+    destruct (entry_some Hdims (i:=fst p) (j:=snd p)) as [x Hx]; [lia|lia|].
+    destruct (entry_some Hdims (i:=snd p) (j:=fst p)) as [y Hy]; [lia|lia|].
+    rewrite Hx, Hy.
+    destruct (nth_error nodes (fst p)) as [ni|] eqn:Eni;
+      [|apply nth_error_None in Eni; lia].
+    destruct (nth_error nodes (snd p)) as [nj|] eqn:Enj;
+      [|apply nth_error_None in Enj; lia].
+    assert (Hne : ni <> nj).
+    { intros ->. assert (fst p = snd p) by (eapply nodup_nth_inj; eassumption). lia. }
+    assert (Hni : In ni (node_ids g)) by (apply Hin; eapply nth_error_In; exact Eni).
+    assert (Hnj : In nj (node_ids g)) by (apply Hin; eapply nth_error_In; exact Enj).
+    assert (Hk1 : ~ In (ni, nj) (edge_keys g)).
+    { unfold edge_keys. rewrite in_map_iff. intros (e & Hk & He).
+      destruct (Hfresh e ni nj He eq_refl eq_refl) as [H _]. contradiction. }
+    assert (Hk2 : ~ In (nj, ni) (edge_keys g)).
+    { unfold edge_keys. rewrite in_map_iff. intros (e & Hk & He).
+      destruct (Hfresh e ni nj He eq_refl eq_refl) as [_ H]. contradiction. }
+    destruct (negb (Z.eqb x 0) && Z.eqb y 0).
+    { rewrite (@add_edge_plain parse fmt g ni nj Dir Hni Hnj Hne Hk1 Hk2). eexists. split; [reflexivity|].
+      split; [apply insert_edge_src|apply insert_edge_ids]. }
+    destruct (Z.eqb x 0 && negb (Z.eqb y 0)).
+    { rewrite (@add_edge_plain parse fmt g nj ni Dir Hnj Hni (not_eq_sym Hne) Hk2 Hk1).
+      eexists. split; [reflexivity|]. split; [apply insert_edge_src|apply insert_edge_ids]. }
+    destruct (negb (Z.eqb x 0) && negb (Z.eqb y 0)).
+    { rewrite (@add_edge_plain parse fmt g ni nj Und Hni Hnj Hne Hk1 Hk2). eexists. split; [reflexivity|].
+      split; [apply insert_edge_src|apply insert_edge_ids]. }
+    exists g. split; [reflexivity|]. split; [rewrite app_nil_r; reflexivity|reflexivity].
+  Qed.
+End PlainLoop2.
+
+Section PlainLoop3.
+  Variable parse : name -> option (name * Z).
+  Variable fmt : name -> Z -> option name.
+  Variable a : matrix.
+  Variable nodes : list name.
+  Hypothesis Hdims : dims (length nodes) a.
+  Hypothesis Hnodup : NoDup nodes.
+
+  (** invariant of the double loop: the edges stored so far are exactly those contributed by
+      the pairs already visited, in that order; the nodes do not change *)
+  Lemma loop_plain P : forall g,
+    (forall p, In p P -> fst p < snd p /\ snd p < length nodes) -> NoDup P ->
+    (forall x, In x nodes -> In x (node_ids g)) ->
+    (forall e p ni nj, In e (gsrc g) -> In p P ->
+       nth_error nodes (fst p) = Some ni -> nth_error nodes (snd p) = Some nj ->
+       edge_key e <> (ni, nj) /\ edge_key e <> (nj, ni)) ->
+    exists g', fold_left (edge_step parse fmt Plain a nodes) P (Ok g) = Ok g'
+               /\ gsrc g' = gsrc g ++ flat_map (edge_of a nodes) P
+               /\ node_ids g' = node_ids g.
+  Proof.
+    induction P as [|p P IH]; intros g HP Hnd Hin Hfresh.
+    - exists g. simpl. rewrite app_nil_r. auto.
+    - inversion Hnd as [|? ? Hp Hnd']; subst.
+      destruct (HP p (or_introl eq_refl)) as [Hlt Hj].
+      destruct (@edge_step_plain parse fmt a nodes Hdims Hnodup g p Hlt Hj Hin) as (g1 & Hg1 & Hs1 & Hn1).
+      { intros e ni nj He. apply Hfresh; [exact He|left; reflexivity]. }
+      cbn [fold_left]. rewrite Hg1.
+      destruct (IH g1) as (g' & Hg' & Hs' & Hn').
+      + intros q Hq. apply HP. right; exact Hq.
+      + exact Hnd'.
+      + intros x Hx. rewrite Hn1. apply Hin; exact Hx.
+      + intros e q ni' nj' He Hq Hni' Hnj'. rewrite Hs1 in He. apply in_app_iff in He.
+        destruct He as [He|He]; [apply (Hfresh e q); [exact He|right; exact Hq|exact Hni'|exact Hnj']|].
+        destruct (@edge_of_key a nodes p e He) as (ni & nj & Hni & Hnj & Hk).
+        destruct (HP q (or_intror Hq)) as [Hltq Hjq].
+        assert (Hpq : p <> q) by (intros ->; contradiction).
+        split; intros Hkey.
+        * destruct Hk as [Hk|Hk]; rewrite Hk in Hkey; injection Hkey as -> ->.
+          -- apply Hpq. destruct p, q; simpl in *.
+             f_equal; eapply nodup_nth_inj; eassumption.
+          -- assert (snd p = fst q) by (eapply nodup_nth_inj; eassumption).
+             assert (fst p = snd q) by (eapply nodup_nth_inj; eassumption). lia.
+        * destruct Hk as [Hk|Hk]; rewrite Hk in Hkey; injection Hkey as -> ->.
+          -- assert (fst p = snd q) by (eapply nodup_nth_inj; eassumption).
+             assert (snd p = fst q) by (eapply nodup_nth_inj; eassumption). lia.
+          -- apply Hpq. destruct p, q; simpl in *.
+             f_equal; eapply nodup_nth_inj; eassumption.
+      + exists g'. split; [exact Hg'|]. split; [|congruence].
+        rewrite Hs', Hs1. simpl. rewrite <- app_assoc. reflexivity.
+  Qed.
+End PlainLoop3.
+
+Lemma map_nid_fresh l : map nid (map fresh_node l) = l.
+Proof. rewrite map_map. simpl. apply map_id. Qed.
+
+(** the unvalidated construction from a well-formed matrix with distinct names always
+    succeeds; its nodes are the names, its edges those of the upper-triangle scan *)
+Theorem from_matrix_plain_ok parse fmt a names :
+  dims (length a) a -> is_binary a = true -> length names = length a -> NoDup names ->
+  exists g', from_matrix parse fmt Plain a (Some names) false = Ok g'
+             /\ node_ids g' = names
+             /\ gsrc g' = flat_map (edge_of a names) (pairs (length names)).
+Proof.
+  intros Hd Hb Hl Hnd. unfold from_matrix.
+  rewrite (proj2 (is_square_true_iff a) Hd), Hb. cbn [negb].
+  rewrite (proj2 (Nat.eqb_eq _ _) Hl). cbn [bind run_op].
+  destruct (@add_nodes_plain parse names (empty_graph []) Hnd) as (g0 & Hg0 & Hn0 & Hs0 & _).
+  { intros x _ []. }
+  rewrite Hg0. cbn [fst bind].
+  assert (Hids : node_ids g0 = names).
+  { unfold node_ids. rewrite Hn0. simpl. apply map_nid_fresh. }
+  rewrite <- Hl in Hd.
+  destruct (@loop_plain parse fmt a names Hd Hnd (pairs (length names)) g0) as (g' & Hg' & Hs' & Hn').
+  - intros [i j] Hp. apply in_pairs in Hp. simpl. lia.
+  - apply pairs_nodup.
+  - intros x Hx. rewrite Hids. exact Hx.
+  - intros e p ni nj He. rewrite Hs0 in He. destruct He.
+  - rewrite Hg'. cbn [bind]. exists g'. split; [reflexivity|]. split; [congruence|].
+    rewrite Hs', Hs0. reflexivity.
+Qed.
+
+Lemma NoDup_map_inj {A B} (f : A -> B) l x y :
+  NoDup (map f l) -> In x l -> In y l -> f x = f y -> x = y.
+Proof.
+  induction l as [|z l IH]; intros Hnd Hx Hy E; [destruct Hx|].
+  simpl in Hnd. inversion Hnd as [|? ? Hz Hnd']; subst.
+  destruct Hx as [->|Hx]; destruct Hy as [->|Hy]; try reflexivity.
+  - exfalso. apply Hz. rewrite E. apply in_map; exact Hy.
+  - exfalso. apply Hz. rewrite <- E. apply in_map; exact Hx.
+  - apply IH; assumption.
+Qed.
+
+(** * C08: the matrix round trip (plain class) *)
+
+Definition has_edge (g : graph) (s d : name) (t : etype) : Prop :=
+  exists e, In e (gsrc g) /\ edge_key e = (s, d) /\ ety e = t.
+
+(** What [CausalGraph.__eq__] compares, on graphs whose edges are all [->] or [--]: the same
+    node identifiers; the same directed edges with the same orientation; the same undirected
+    edges up to orientation. *)
+Definition same_graph (g h : graph) : Prop :=
+  (forall x, In x (node_ids g) <-> In x (node_ids h))
+  /\ (forall s d, has_edge g s d Dir <-> has_edge h s d Dir)
+  /\ (forall s d, has_edge g s d Und \/ has_edge g d s Und
+                  <-> has_edge h s d Und \/ has_edge h d s Und)
+  /\ only_dir_und g /\ only_dir_und h.
+
+Lemma binary_is_binary n a :
+  dims n a -> (forall i j, i < n -> j < n -> entry a i j = Some 0%Z \/ entry a i j = Some 1%Z) ->
+  is_binary a = true.
+Proof.
+  intros Hd Hb. destruct (is_binary a) eqn:E; [reflexivity|]. exfalso.
+  apply is_binary_false_iff in E. destruct E as (i & j & z & He & H0 & H1).
+  destruct (@entry_lt n a i j z Hd He) as [Hi Hj].
+  destruct (Hb i j Hi Hj) as [H|H]; rewrite H in He; injection He as <-; contradiction.
+Qed.
+
+Definition entry_spec (g : graph) (a : matrix) (names : list name) : Prop :=
+  forall i j ni nj,
+    nth_error names i = Some ni -> nth_error names j = Some nj ->
+    (entry a i j = Some 1%Z <->
+     exists e, In e (gsrc g) /\
+       ((edge_key e = (ni, nj) /\ (ety e = Dir \/ ety e = Und))
+        \/ (edge_key e = (nj, ni) /\ ety e = Und))).
+
+Section EntriesVsEdges.
+  Variable parse : name -> option (name * Z).
+  Variable k : kind.
+  Variable g : graph.
+  Variable a : matrix.
+  Variable names : list name.
+  Hypothesis HI : Inv parse k g.
+  (** the matrix has the entries of [matrix_entry] under the node order [names] (this is so for
+      [to_matrix g] and for [networkx.to_numpy_array(g.to_networkx())]) *)
+  Hypothesis Hentry : entry_spec g a names.
+
+  Variables (i j : nat) (ni nj : name).
+  Hypothesis Hi : nth_error names i = Some ni.
+  Hypothesis Hj : nth_error names j = Some nj.
+
+  Let E_ij := Hentry i j Hi Hj.
+  Let E_ji := Hentry j i Hj Hi.
+
+  Lemma same_key_same_edge e1 e2 :
+    In e1 (gsrc g) -> In e2 (gsrc g) -> edge_key e1 = edge_key e2 -> e1 = e2.
+  Proof. intros H1 H2 E. eapply NoDup_map_inj; [apply (inv_nodup_keys HI)| | |]; eassumption. Qed.
+
+  Lemma no_reverse_pair e1 e2 s d :
+    In e1 (gsrc g) -> In e2 (gsrc g) -> edge_key e1 = (s, d) -> edge_key e2 = (d, s) -> False.
+  Proof.
+    intros H1 H2 K1 K2. apply (inv_noreverse HI e1 H1). unfold edge_key in K1.
+    injection K1 as -> ->. unfold edge_keys. rewrite <- K2. apply in_map; exact H2.
+  Qed.
+
+  Lemma entries_dir : entry a i j = Some 1%Z -> entry a j i <> Some 1%Z -> has_edge g ni nj Dir.
+  Proof.
+    intros H1 H0. apply E_ij in H1. destruct H1 as (e & He & Hc).
+    destruct Hc as [(Hk & [Ht|Ht])|(Hk & Ht)].
+    - exists e. auto.
+    - exfalso. apply H0, E_ji. exists e. split; [exact He|right; auto].
+    - exfalso. apply H0, E_ji. exists e. split; [exact He|left; auto].
+  Qed.
+
+  Lemma entries_und :
+    entry a i j = Some 1%Z -> entry a j i = Some 1%Z -> has_edge g ni nj Und \/ has_edge g nj ni Und.
+  Proof.
+    intros H1 H2. apply E_ij in H1. apply E_ji in H2.
+    destruct H1 as (e1 & He1 & Hc1). destruct H2 as (e2 & He2 & Hc2).
+    destruct Hc1 as [(Hk1 & [Ht1|Ht1])|(Hk1 & Ht1)].
+    - exfalso. destruct Hc2 as [(Hk2 & _)|(Hk2 & Ht2)].
+      + eapply no_reverse_pair; [exact He1|exact He2|exact Hk1|exact Hk2].
+      + assert (e1 = e2) by (apply same_key_same_edge; congruence). subst e2. congruence.
+    - left. exists e1. auto.
+    - right. exists e1. auto.
+  Qed.
+
+  Lemma dir_entries : has_edge g ni nj Dir -> entry a i j = Some 1%Z /\ entry a j i <> Some 1%Z.
+  Proof.
+    intros (e & He & Hk & Ht). split.
+    - apply E_ij. exists e. split; [exact He|left; auto].
+    - intros H. apply E_ji in H. destruct H as (e2 & He2 & [(Hk2 & _)|(Hk2 & Ht2)]).
+      + eapply no_reverse_pair; [exact He|exact He2|exact Hk|exact Hk2].
+      + assert (e = e2) by (apply same_key_same_edge; congruence). subst e2. congruence.
+  Qed.
+
+  Lemma und_entries : has_edge g ni nj Und -> entry a i j = Some 1%Z /\ entry a j i = Some 1%Z.
+  Proof.
+    intros (e & He & Hk & Ht). split.
+    - apply E_ij. exists e. split; [exact He|left; auto].
+    - apply E_ji. exists e. split; [exact He|right; auto].
+  Qed.
+End EntriesVsEdges.
+
+Lemma edge_of_eval a nodes i j x y ni nj :
+  entry a i j = Some x -> entry a j i = Some y ->
+  nth_error nodes i = Some ni -> nth_error nodes j = Some nj ->
+  edge_of a nodes (i, j)
+  = if negb (Z.eqb x 0) && Z.eqb y 0 then [mk_edge ni nj Dir]
+    else if Z.eqb x 0 && negb (Z.eqb y 0) then [mk_edge nj ni Dir]
+    else if negb (Z.eqb x 0) && negb (Z.eqb y 0) then [mk_edge ni nj Und]
+    else [].
+Proof. intros Hx Hy Hi Hj. unfold edge_of. cbn [fst snd]. rewrite Hx, Hy, Hi, Hj. reflexivity. Qed.
+
+Section RoundTrip.
+  Variable parse : name -> option (name * Z).
+  Variable k : kind.
+  Variable g : graph.
+  Variable a : matrix.
+  Variable names : list name.
+  Hypothesis HI : Inv parse k g.
+  Hypothesis Honly : only_dir_und g.
+  Hypothesis Hnames : forall x, In x names <-> In x (node_ids g).
+  Let n := length names.
+  Hypothesis Hshape :
+    dims n a /\ (forall i j, i < n -> j < n -> entry a i j = Some 0%Z \/ entry a i j = Some 1%Z).
+  Hypothesis Hentry : entry_spec g a names.
+
+  Variable g' : graph.
+  Hypothesis Hsrc : gsrc g' = flat_map (edge_of a names) (pairs n).
+
+  Lemma rt_cell i j :
+    i < n -> j < n ->
+    exists ni nj x y,
+      nth_error names i = Some ni /\ nth_error names j = Some nj
+      /\ entry a i j = Some x /\ entry a j i = Some y
+      /\ (x = 0%Z \/ x = 1%Z) /\ (y = 0%Z \/ y = 1%Z).
+  Proof.
+    intros Hi Hj. destruct Hshape as [Hd Hb].
+    destruct (nth_error names i) as [ni|] eqn:Eni; [|apply nth_error_None in Eni; unfold n in *; lia].
+    destruct (nth_error names j) as [nj|] eqn:Enj; [|apply nth_error_None in Enj; unfold n in *; lia].
+    exists ni, nj.
+    destruct (Hb i j Hi Hj) as [Hx|Hx]; destruct (Hb j i Hj Hi) as [Hy|Hy];
+      eexists; eexists; (split; [reflexivity|]); (split; [reflexivity|]);
+      (split; [exact Hx|]); (split; [exact Hy|]); auto.
+  Qed.
+
+  Lemma rt_in_g' e' :
+    In e' (gsrc g') <-> exists i j, i < j /\ j < n /\ In e' (edge_of a names (i, j)).
+  Proof.
+    rewrite Hsrc, in_flat_map. split.
+    - intros ([i j] & Hp & He). apply in_pairs in Hp. exists i, j. repeat split; try lia. exact He.
+    - intros (i & j & Hij & Hj & He). exists (i, j). split; [apply in_pairs; lia|exact He].
+  Qed.
+
+  (** every edge of the rebuilt graph is an edge of the original *)
+  Lemma rt_back e' :
+    In e' (gsrc g') ->
+    (ety e' = Dir /\ has_edge g (esrc e') (edst e') Dir)
+    \/ (ety e' = Und /\ (has_edge g (esrc e') (edst e') Und \/ has_edge g (edst e') (esrc e') Und)).
+  Proof.
+    intros He. apply rt_in_g' in He. destruct He as (i & j & Hij & Hj & He).
+    assert (Hi : i < n) by lia.
+    destruct (rt_cell Hi Hj) as (ni & nj & x & y & Hni & Hnj & Hx & Hy & Hxb & Hyb).
+    rewrite (edge_of_eval _ _ _ _ Hx Hy Hni Hnj) in He.
+    destruct Hxb as [-> | ->]; destruct Hyb as [-> | ->]; simpl in He.
+    - destruct He.
+    - destruct He as [<-|[]]. left. split; [reflexivity|]. simpl.
+      apply (@entries_dir g a names Hentry j i nj ni Hnj Hni Hy). rewrite Hx. discriminate.
+    - destruct He as [<-|[]]. left. split; [reflexivity|]. simpl.
+      apply (@entries_dir g a names Hentry i j ni nj Hni Hnj Hx). rewrite Hy. discriminate.
+    - destruct He as [<-|[]]. right. split; [reflexivity|]. simpl.
+      apply (@entries_und parse k g a names HI Hentry i j ni nj Hni Hnj Hx Hy).
+  Qed.
+
+  (** every edge of the original is an edge of the rebuilt graph, an undirected one possibly
+      with its endpoints exchanged *)
+  Lemma rt_forth e :
+    In e (gsrc g) ->
+    (ety e = Dir -> has_edge g' (esrc e) (edst e) Dir)
+    /\ (ety e = Und -> has_edge g' (esrc e) (edst e) Und \/ has_edge g' (edst e) (esrc e) Und).
+  Proof.
+    intros He.
+    destruct (inv_endpoints HI e He) as [Hs Hd].
+    apply Hnames, In_nth_error in Hs. apply Hnames, In_nth_error in Hd.
+    destruct Hs as [i Hni]. destruct Hd as [j Hnj].
+    assert (Hi : i < n) by (apply nth_error_Some; congruence).
+    assert (Hj : j < n) by (apply nth_error_Some; congruence).
+    assert (Hij : i <> j).
+    { intros ->. apply (inv_noloop HI e He). congruence. }
+    destruct Hshape as [_ Hb].
+    assert (Hin : forall i0 j0 e0, i0 < j0 -> j0 < n -> In e0 (edge_of a names (i0, j0)) ->
+                                   In e0 (gsrc g')).
+    { intros i0 j0 e0 H1 H2 H3. apply rt_in_g'. exists i0, j0. auto. }
+    split; intros Hty.
+    - assert (Hh : has_edge g (esrc e) (edst e) Dir) by (exists e; auto).
+      destruct (@dir_entries parse k g a names HI Hentry i j _ _ Hni Hnj Hh) as [H1 H0].
+      assert (H0' : entry a j i = Some 0%Z) by (destruct (Hb j i Hj Hi); [assumption|contradiction]).
+      exists (mk_edge (esrc e) (edst e) Dir). split; [|split; reflexivity].
+      destruct (Nat.lt_ge_cases i j) as [Hlt|Hge].
+      + apply (Hin i j); [exact Hlt|exact Hj|].
+        rewrite (edge_of_eval _ _ _ _ H1 H0' Hni Hnj). simpl. left; reflexivity.
+      + apply (Hin j i); [lia|exact Hi|].
+        rewrite (edge_of_eval _ _ _ _ H0' H1 Hnj Hni). simpl. left; reflexivity.
+    - assert (Hh : has_edge g (esrc e) (edst e) Und) by (exists e; auto).
+      destruct (@und_entries g a names Hentry i j _ _ Hni Hnj Hh) as [H1 H2].
+      destruct (Nat.lt_ge_cases i j) as [Hlt|Hge].
+      + left. exists (mk_edge (esrc e) (edst e) Und). split; [|split; reflexivity].
+        apply (Hin i j); [exact Hlt|exact Hj|].
+        rewrite (edge_of_eval _ _ _ _ H1 H2 Hni Hnj). simpl. left; reflexivity.
+      + right. exists (mk_edge (edst e) (esrc e) Und). split; [|split; reflexivity].
+        apply (Hin j i); [lia|exact Hi|].
+        rewrite (edge_of_eval _ _ _ _ H2 H1 Hnj Hni). simpl. left; reflexivity.
+  Qed.
+
+  Hypothesis Hids : node_ids g' = names.
+
+  Lemma rt_same_graph : same_graph g g'.
+  Proof.
+    split; [|split; [|split; [|split]]].
+    - intros x. rewrite Hids. symmetry. apply Hnames.
+    - intros s d. split.
+      + intros (e & He & Hk & Hty). destruct (rt_forth e He) as [H _].
+        unfold edge_key in Hk. injection Hk as <- <-. apply H; exact Hty.
+      + intros (e' & He' & Hk & Hty). unfold edge_key in Hk. injection Hk as <- <-.
+        destruct (rt_back e' He') as [[_ H]|[H _]]; [exact H|congruence].
+    - intros s d. split.
+      + intros [(e & He & Hk & Hty)|(e & He & Hk & Hty)];
+          destruct (rt_forth e He) as [_ H]; unfold edge_key in Hk; injection Hk as <- <-;
+          destruct (H Hty); auto.
+      + intros [(e' & He' & Hk & Hty)|(e' & He' & Hk & Hty)];
+          unfold edge_key in Hk; injection Hk as <- <-;
+          (destruct (rt_back e' He') as [[H _]|[_ H]]; [congruence|]); destruct H; auto.
+    - exact Honly.
+    - intros e' He'. destruct (rt_back e' He') as [[H _]|[H _]]; auto.
+  Qed.
+End RoundTrip.
+
+(** [from_adjacency_matrix] applied to the two results of [g.to_numpy()] with validate=False succeeds and equals [g]
+    (whatever class [g] itself has; the rebuilt graph is a plain one) *)
+Theorem matrix_roundtrip_novalidate parse fmt k g a names :
+  Inv parse k g -> to_numpy g = Ok (a, names) ->
+  exists g', from_matrix parse fmt Plain a (Some names) false = Ok g'
+             /\ node_ids g' = names /\ same_graph g g'.
+Proof.
+  intros HI Hnp. destruct (to_numpy_ok_inv _ Hnp) as (Ha & -> & Honly).
+  pose proof (matrix_shape HI Ha) as Hshape. destruct Hshape as [Hd Hb].
+  assert (Hla : length a = length (v_node_names g)) by apply Hd.
+  destruct (@from_matrix_plain_ok parse fmt a (v_node_names g)) as (g' & Hg' & Hids & Hsrc).
+  - rewrite Hla. exact Hd.
+  - eapply binary_is_binary; eassumption.
+  - symmetry; exact Hla.
+  - apply (v_node_names_nodup HI).
+  - exists g'. split; [exact Hg'|]. split; [exact Hids|].
+    apply (@rt_same_graph parse k g a (v_node_names g) HI Honly (v_node_names_in g)
+             (conj Hd Hb) (matrix_entry HI Ha) g' Hsrc Hids).
+Qed.
+
+(** * General facts about the construction (both classes) *)
+
+Section Construction.
+  Variable parse : name -> option (name * Z).
+  Variable fmt : name -> Z -> option name.
+  Variable k : kind.
+
+  Lemma edge_step_fold_err a nodes P x :
+    fold_left (edge_step parse fmt k a nodes) P (Err x) = Err x.
+  Proof. induction P as [|p P IH]; [reflexivity|exact IH]. Qed.
+
+  Lemma add_edge_ok_snd g sp dp ty m v g' :
+    fst (add_edge parse k g sp dp ty m v) = Ok g' -> snd (add_edge parse k g sp dp ty m v) = g'.
+  Proof.
+    unfold add_edge. destruct (add_edge_try parse k g sp dp ty m v) as [[g1|x] gl]; simpl.
+    - intros [= ->]. reflexivity.
+    - discriminate.
+  Qed.
+
+  Lemma add_nodes_ok_snd ids : forall acc,
+    (forall g, fst acc = Ok g -> snd acc = g) ->
+    forall g',
+      fst (fold_left (fun (acc : res graph * graph) id =>
+                        match acc with
+                        | (Ok g', _) =>
+                            match add_node_id parse k g' id VUnspec None with
+                            | Ok g'' => (Ok g'', g'')
+                            | Err x => (Err x, g')
+                            end
+                        | (Err x, gl) => (Err x, gl)
+                        end) ids acc) = Ok g' ->
+      snd (fold_left (fun (acc : res graph * graph) id =>
+                        match acc with
+                        | (Ok g', _) =>
+                            match add_node_id parse k g' id VUnspec None with
+                            | Ok g'' => (Ok g'', g'')
+                            | Err x => (Err x, g')
+                            end
+                        | (Err x, gl) => (Err x, gl)
+                        end) ids acc) = g'.
+  Proof.
+    induction ids as [|id ids IH]; intros acc Hacc g' H; [apply Hacc; exact H|].
+    cbn [fold_left] in *. apply IH; [|exact H].
+    destruct acc as [[g0|x] gl]; [|simpl; discriminate].
+    destruct (add_node_id parse k g0 id VUnspec None); simpl; [intros g1 [= ->]; reflexivity|discriminate].
+  Qed.
+
+  Lemma check_nodes_ok g nodes :
+    (forall n, In n nodes -> depends_on_itself g n = Some false) -> check_nodes g nodes = Ok tt.
+  Proof.
+    induction nodes as [|n ns IH]; intros H; simpl; [reflexivity|].
+    rewrite (H n (or_introl eq_refl)). apply IH. intros m Hm. apply H. right; exact Hm.
+  Qed.
+
+  Lemma check_nodes_cyclic g nodes :
+    (forall n, In n nodes -> exists b, depends_on_itself g n = Some b) ->
+    (exists n, In n nodes /\ depends_on_itself g n = Some true) ->
+    check_nodes g nodes = Err ECyclic.
+  Proof.
+    induction nodes as [|n ns IH]; intros Hall (c & Hc & Hct); [destruct Hc|]. simpl.
+    destruct (Hall n (or_introl eq_refl)) as [b Hb]. rewrite Hb. destruct b; [reflexivity|].
+    apply IH.
+    - intros m Hm. apply Hall. right; exact Hm.
+    - destruct Hc as [->|Hc]; [congruence|]. exists c. split; assumption.
+  Qed.
+
+  (** the validated construction is the unvalidated one followed by the cycle scan *)
+  Lemma from_matrix_validated a names g1 :
+    from_matrix parse fmt k a (Some names) false = Ok g1 ->
+    from_matrix parse fmt k a (Some names) true = bind (check_nodes g1 names) (fun _ => Ok g1).
+  Proof.
+    unfold from_matrix.
+    destruct (negb (is_square a)); [discriminate|].
+    destruct (negb (is_binary a)); [discriminate|].
+    destruct (Nat.eqb (length names) (length a)); cbn [bind]; [|discriminate].
+    destruct (fst (run_op parse fmt k (empty_graph []) (OAddNodesFrom names))) as [g0|x];
+      cbn [bind]; [|discriminate].
+    destruct (fold_left (edge_step parse fmt k a names) (pairs (length names)) (Ok g0)) as [g2|x];
+      cbn [bind]; [|discriminate].
+    intros [= ->]. reflexivity.
+  Qed.
+
+  (** ** Taken from GraphInvProofs.v (colleague), in the exact shape of GraphInv.v *)
+  Hypothesis inv_init : inv_init_statement parse.
+  Hypothesis inv_step : inv_step_statement parse fmt.
+
+  Lemma edge_step_inv a nodes g p g' :
+    Inv parse k g -> edge_step parse fmt k a nodes (Ok g) p = Ok g' -> Inv parse k g'.
+  Proof.
+    intros HI. unfold edge_step. cbn [bind].
+    destruct (entry a (fst p) (snd p)) as [x|]; [|discriminate].
+    destruct (entry a (snd p) (fst p)) as [y|]; [|discriminate].
+    destruct (nth_error nodes (fst p)) as [ni|]; [|discriminate].
+    destruct (nth_error nodes (snd p)) as [nj|]; [|discriminate].
+    assert (Hop : forall s d ty, add_edge_op parse fmt k g s d ty = Ok g' -> Inv parse k g').
+    { intros s d ty H. unfold add_edge_op in H.
+      replace g' with (step parse fmt k g (OAddEdge (str_ep s) (str_ep d) ty None false));
+        [apply inv_step; exact HI|].
+      unfold step. cbn [run_op] in *. apply add_edge_ok_snd; exact H. }
+    destruct (negb (Z.eqb x 0) && Z.eqb y 0); [apply Hop|].
+    destruct (Z.eqb x 0 && negb (Z.eqb y 0)); [apply Hop|].
+    destruct (negb (Z.eqb x 0) && negb (Z.eqb y 0)); [apply Hop|].
+    intros [= <-]. exact HI.
+  Qed.
+
+  Lemma loop_inv a nodes P : forall g g',
+    Inv parse k g -> fold_left (edge_step parse fmt k a nodes) P (Ok g) = Ok g' -> Inv parse k g'.
+  Proof.
+    induction P as [|p P IH]; intros g g' HI H; cbn [fold_left] in H.
+    - injection H as <-. exact HI.
+    - destruct (edge_step parse fmt k a nodes (Ok g) p) as [g1|x] eqn:E;
+        [|rewrite edge_step_fold_err in H; discriminate].
+      eapply IH; [|exact H]. eapply edge_step_inv; eassumption.
+  Qed.
+
+  (** whatever [from_adjacency_matrix] returns satisfies the state invariant *)
+  Theorem from_matrix_inv a names v g' :
+    from_matrix parse fmt k a names v = Ok g' -> Inv parse k g'.
+  Proof.
+    unfold from_matrix.
+    destruct (negb (is_square a)); [discriminate|].
+    destruct (negb (is_binary a)); [discriminate|].
+    destruct (match names with
+              | Some l => if Nat.eqb (length l) (length a) then Ok l else Err EAssert
+              | None => Ok (default_names (length a))
+              end) as [nodes|x]; cbn [bind]; [|discriminate].
+    destruct (fst (run_op parse fmt k (empty_graph []) (OAddNodesFrom nodes))) as [g0|x] eqn:E0;
+      cbn [bind]; [|discriminate].
+    assert (HI0 : Inv parse k g0).
+    { replace g0 with (step parse fmt k (empty_graph []) (OAddNodesFrom nodes));
+        [apply inv_step, inv_init|].
+      unfold step. cbn [run_op] in *. unfold add_nodes_from in *.
+      apply add_nodes_ok_snd; [intros g [= ->]; reflexivity|exact E0]. }
+    destruct (fold_left (edge_step parse fmt k a nodes) (pairs (length nodes)) (Ok g0)) as [g1|x] eqn:E1;
+      cbn [bind]; [|discriminate].
+    assert (HI1 : Inv parse k g1) by (eapply loop_inv; eassumption).
+    destruct v; [|intros [= <-]; exact HI1].
+    destruct (check_nodes g1 nodes); cbn [bind]; [|discriminate]. intros [= <-]; exact HI1.
+  Qed.
+End Construction.
+
+(** * Directed paths of equal graphs *)
+
+Lemma arc_has_edge g s d : arc (dgraph g) s d <-> has_edge g s d Dir.
+Proof.
+  unfold arc, dgraph, has_edge; simpl. rewrite in_map_iff. split.
+  - intros (e & Hk & He). apply filter_In in He. destruct He as [He Ht].
+    exists e. split; [exact He|]. split; [exact Hk|]. destruct (etype_eqb_spec (ety e) Dir); congruence.
+  - intros (e & He & Hk & Ht). exists e. split; [exact Hk|]. apply filter_In.
+    split; [exact He|]. rewrite Ht. reflexivity.
+Qed.
+
+Lemma path_mono {A} (G H : digraph A) x y :
+  (forall s d, arc G s d -> arc H s d) -> path G x y -> path H x y.
+Proof.
+  intros Hsub Hp. unfold path in *. induction Hp as [x y Hxy|x y z _ IH1 _ IH2].
+  - apply t_step. apply Hsub; exact Hxy.
+  - eapply t_trans; eassumption.
+Qed.
+
+Lemma same_graph_path g h x y : same_graph g h -> (path (dgraph g) x y <-> path (dgraph h) x y).
+Proof.
+  intros (_ & Hdir & _). split; apply path_mono; intros s d; rewrite !arc_has_edge; apply Hdir.
+Qed.
+
+Lemma same_graph_acyclic g h : same_graph g h -> (Acyclic g <-> Acyclic h).
+Proof.
+  intros Hs. unfold Acyclic, acyclic.
+  split; intros H v Hp; apply (H v); apply (same_graph_path v v Hs); exact Hp.
+Qed.
+
+(** * C08: the validated round trips, on top of the colleagues' theorems *)
+
+Section WithGraphInv.
+  Variable parse : name -> option (name * Z).
+  Variable fmt : name -> Z -> option name.
+
+  (** GraphInvProofs.v: every reachable state satisfies the invariant *)
+  Hypothesis inv_init : inv_init_statement parse.
+  Hypothesis inv_step : inv_step_statement parse fmt.
+  (** GraphAcyclicProofs.v: the cycle check terminates within its fuel and is correct *)
+  Hypothesis cycle_check : cycle_check_statement parse.
+
+  (** C08, matrix round trip with the default [validate=True]: for every graph made only of
+      directed and undirected edges whose directed part is acyclic (as it is after validated
+      mutations), [from_adjacency_matrix] applied to the results of [to_numpy()] succeeds and the
+      result equals the graph; it satisfies the invariant and is acyclic *)
+  Theorem matrix_roundtrip k g a names :
+    Inv parse k g -> Acyclic g -> to_numpy g = Ok (a, names) ->
+    exists g', from_matrix parse fmt Plain a (Some names) true = Ok g'
+               /\ node_ids g' = names /\ same_graph g g'
+               /\ Inv parse Plain g' /\ Acyclic g'.
+  Proof.
+    intros HI Hac Hnp.
+    destruct (@matrix_roundtrip_novalidate parse fmt k g a names HI Hnp) as (g' & Hg' & Hids & Hsame).
+    assert (HI' : Inv parse Plain g') by (eapply from_matrix_inv; eassumption).
+    assert (Hac' : Acyclic g') by (apply (same_graph_acyclic Hsame); exact Hac).
+    exists g'. rewrite (from_matrix_validated _ _ _ _ _ Hg').
+    rewrite check_nodes_ok; [cbn [bind]; auto|].
+    intros d Hd. rewrite <- Hids in Hd.
+    destruct (@cycle_check Plain g' d HI' Hd) as (b & Hb & Hiff). rewrite Hb. destruct b; [|reflexivity].
+    exfalso. apply (Hac' d). apply Hiff. reflexivity.
+  Qed.
+
+  (** ... and when the directed part of the graph has a cycle (possible only after
+      [validate=False] mutations) the validated import refuses with CyclicConnectionError *)
+  Theorem matrix_roundtrip_cyclic_refused k g a names :
+    Inv parse k g -> ~ Acyclic g -> to_numpy g = Ok (a, names) ->
+    from_matrix parse fmt Plain a (Some names) true = Err ECyclic.
+  Proof.
+    intros HI Hcyc Hnp.
+    destruct (@matrix_roundtrip_novalidate parse fmt k g a names HI Hnp) as (g' & Hg' & Hids & Hsame).
+    assert (HI' : Inv parse Plain g') by (eapply from_matrix_inv; eassumption).
+    rewrite (from_matrix_validated _ _ _ _ _ Hg').
+    rewrite check_nodes_cyclic; [reflexivity| |].
+    - intros d Hd. rewrite <- Hids in Hd. destruct (@cycle_check Plain g' d HI' Hd) as (b & Hb & _).
+      exists b; exact Hb.
+    - (* some node of [g'] lies on a cycle *)
+      assert (Hex : exists d, In d (node_ids g') /\ path (dgraph g') d d).
+      { destruct (existsb (fun d => match depends_on_itself g' d with Some true => true | _ => false end)
+                    (node_ids g')) eqn:E.
+        - apply existsb_exists in E. destruct E as (d & Hd & Hb).
+          destruct (@cycle_check Plain g' d HI' Hd) as (b & Hb' & Hiff). rewrite Hb' in Hb.
+          destruct b; [|discriminate]. exists d. split; [exact Hd|apply Hiff; reflexivity].
+        - exfalso. apply Hcyc. apply (same_graph_acyclic Hsame). intros v Hp.
+          assert (Hv : In v (node_ids g')).
+          { (* the first arc of the cycle has its source among the nodes *)
+            assert (Hfirst : exists w, arc (dgraph g') v w).
+            { clear -Hp. unfold path in Hp. remember v as v' in Hp at 2.
+              clear Heqv'. induction Hp as [x y Hxy|x y z _ IH1 _ _]; [exists y; exact Hxy|exact IH1]. }
+            destruct Hfirst as (w & Hw). apply arc_has_edge in Hw.
+            destruct Hw as (e & He & Hk & _). unfold edge_key in Hk. injection Hk as <- _.
+            apply (inv_endpoints HI' e He). }
+          destruct (@cycle_check Plain g' v HI' Hv) as (b & Hb & Hiff).
+          assert (b = true) by (apply Hiff; exact Hp). subst b.
+          assert (Hcontra : existsb (fun d => match depends_on_itself g' d with
+                                              | Some true => true | _ => false end)
+                              (node_ids g') = true).
+          { apply existsb_exists. exists v. split; [exact Hv|]. rewrite Hb. reflexivity. }
+          congruence. }
+      destruct Hex as (d & Hd & Hp). exists d. split; [rewrite <- Hids; exact Hd|].
+      destruct (@cycle_check Plain g' d HI' Hd) as (b & Hb & Hiff). rewrite Hb. f_equal. apply Hiff; exact Hp.
+  Qed.
+End WithGraphInv.
+
+(** * C08: the networkx round trip *)
+
+Lemma to_nx_ok_inv g x :
+  to_nx g = Ok x ->
+  exists dir, x = (dir, v_node_names g, map edge_key (v_edges g))
+    /\ (dir = true -> forall e, In e (gsrc g) -> ety e = Dir)
+    /\ (dir = false -> forall e, In e (gsrc g) -> ety e = Und).
+Proof.
+  unfold to_nx. intros H.
+  destruct (fully_directed g) eqn:Hfd; simpl in H.
+  - injection H as <-. exists true. split; [reflexivity|]. split; [|discriminate].
+    intros _ e He. unfold fully_directed in Hfd. rewrite forallb_forall in Hfd.
+    apply v_edges_in in He. specialize (Hfd e He). destruct (etype_eqb_spec (ety e) Dir); congruence.
+  - destruct (fully_undirected g) eqn:Hfu; simpl in H; [|discriminate].
+    injection H as <-. exists false. split; [reflexivity|]. split; [discriminate|].
+    intros _ e He. unfold fully_undirected in Hfu. rewrite forallb_forall in Hfu.
+    apply v_edges_in in He. specialize (Hfu e He). destruct (etype_eqb_spec (ety e) Und); congruence.
+Qed.
+
+Lemma nx_to_matrix_dims x : dims (length (nx_nodes x)) (nx_to_matrix x).
+Proof.
+  unfold nx_to_matrix. split; [apply map_length|].
+  intros r Hr. apply in_map_iff in Hr. destruct Hr as (u & <- & _). apply map_length.
+Qed.
+
+Lemma nx_to_matrix_entry x i j ni nj :
+  nth_error (nx_nodes x) i = Some ni -> nth_error (nx_nodes x) j = Some nj ->
+  entry (nx_to_matrix x) i j = Some (if nx_has x ni nj then 1%Z else 0%Z).
+Proof.
+  intros Hi Hj. unfold entry, nx_to_matrix.
+  rewrite (map_nth_error _ _ _ Hi). apply (map_nth_error _ _ _ Hj).
+Qed.
+
+Lemma nx_has_spec dir ns es u v :
+  nx_has (dir, ns, es) u v = true <-> In (u, v) es \/ (dir = false /\ In (v, u) es).
+Proof.
+  unfold nx_has. rewrite existsb_exists. split.
+  - intros (e & He & Hb). apply orb_true_iff in Hb. destruct Hb as [Hb|Hb].
+    + destruct (pair_eqb_spec e (u, v)); [subst; left; exact He|discriminate].
+    + apply andb_true_iff in Hb. destruct Hb as [Hd Hb].
+      destruct (pair_eqb_spec e (v, u)); [subst|discriminate].
+      right. split; [destruct dir; [discriminate|reflexivity]|exact He].
+  - intros [H|[-> H]].
+    + exists (u, v). split; [exact H|]. destruct (pair_eqb_spec (u, v) (u, v)); [reflexivity|congruence].
+    + exists (v, u). split; [exact H|]. simpl.
+      destruct (pair_eqb_spec (v, u) (v, u)); [apply orb_true_r|congruence].
+Qed.
+
+(** [from_networkx(g.to_networkx(), validate=False)] equals [g] for every fully directed and
+    every fully undirected graph, isolated nodes included (the node sets are equal) *)
+Theorem nx_roundtrip_novalidate parse fmt k g x :
+  Inv parse k g -> to_nx g = Ok x ->
+  exists g', from_nx parse fmt Plain x false = Ok g'
+             /\ node_ids g' = nx_nodes x /\ same_graph g g'.
+Proof.
+  intros HI Hx. destruct (to_nx_ok_inv _ Hx) as (dir & -> & Hdir & Hund).
+  set (x := (dir, v_node_names g, map edge_key (v_edges g))) in *.
+  assert (Honly : only_dir_und g).
+  { intros e He. destruct dir; [left; apply Hdir|right; apply Hund]; auto. }
+  assert (Hnames : forall y, In y (nx_nodes x) <-> In y (node_ids g)).
+  { intros y. unfold nx_nodes, x. rewrite dedup_in, in_app_iff, v_node_names_in. split; [|auto].
+    intros [H|H]; [exact H|]. apply in_flat_map in H. destruct H as (p & Hp & Hy).
+    apply in_map_iff in Hp. destruct Hp as (e & <- & He). apply v_edges_in in He.
+    destruct (inv_endpoints HI e He) as [H1 H2]. simpl in Hy.
+    destruct Hy as [<-|[<-|[]]]; assumption. }
+  assert (Hnd : NoDup (nx_nodes x)) by (unfold nx_nodes, x; apply dedup_nodup).
+  pose proof (nx_to_matrix_dims x) as Hd.
+  assert (Hb : forall i j, i < length (nx_nodes x) -> j < length (nx_nodes x) ->
+                           entry (nx_to_matrix x) i j = Some 0%Z \/ entry (nx_to_matrix x) i j = Some 1%Z).
+  { intros i j Hi Hj.
+    destruct (nth_error (nx_nodes x) i) as [ni|] eqn:Ei; [|apply nth_error_None in Ei; lia].
+    destruct (nth_error (nx_nodes x) j) as [nj|] eqn:Ej; [|apply nth_error_None in Ej; lia].
+    rewrite (nx_to_matrix_entry _ _ _ Ei Ej). destruct (nx_has x ni nj); auto. }
+  assert (Hentry : entry_spec g (nx_to_matrix x) (nx_nodes x)).
+  { intros i j ni nj Hi Hj. rewrite (nx_to_matrix_entry _ _ _ Hi Hj).
+    assert (Hh : nx_has x ni nj = true <->
+                 exists e, In e (gsrc g) /\
+                   ((edge_key e = (ni, nj) /\ (ety e = Dir \/ ety e = Und))
+                    \/ (edge_key e = (nj, ni) /\ ety e = Und))).
+    { unfold x. rewrite nx_has_spec, !in_map_iff. split.
+      - intros [(e & Hk & He)|(-> & e & Hk & He)]; apply v_edges_in in He; exists e; (split; [exact He|]).
+        + left. split; [exact Hk|apply Honly; exact He].
+        + right. split; [exact Hk|apply Hund; auto].
+      - intros (e & He & [(Hk & _)|(Hk & Ht)]).
+        + left. exists e. split; [exact Hk|apply v_edges_in; exact He].
+        + right. split.
+          * destruct dir; [|reflexivity]. rewrite (Hdir eq_refl e He) in Ht. discriminate.
+          * exists e. split; [exact Hk|apply v_edges_in; exact He]. }
+    rewrite <- Hh. destruct (nx_has x ni nj); split; intros H; congruence. }
+  unfold from_nx.
+  destruct (@from_matrix_plain_ok parse fmt (nx_to_matrix x) (nx_nodes x)) as (g' & Hg' & Hids & Hsrc).
+  - replace (length (nx_to_matrix x)) with (length (nx_nodes x)) by (symmetry; apply Hd). exact Hd.
+  - eapply binary_is_binary; eassumption.
+  - symmetry. apply Hd.
+  - exact Hnd.
+  - exists g'. split; [exact Hg'|]. split; [exact Hids|].
+    apply (@rt_same_graph parse k g (nx_to_matrix x) (nx_nodes x) HI Honly Hnames
+             (conj Hd Hb) Hentry g' Hsrc Hids).
+Qed.
+
+Section WithGraphInvNx.
+  Variable parse : name -> option (name * Z).
+  Variable fmt : name -> Z -> option name.
+  Hypothesis inv_init : inv_init_statement parse.
+  Hypothesis inv_step : inv_step_statement parse fmt.
+  Hypothesis cycle_check : cycle_check_statement parse.
+
+  (** the same with the default [validate=True], for graphs whose directed part is acyclic *)
+  Theorem nx_roundtrip k g x :
+    Inv parse k g -> Acyclic g -> to_nx g = Ok x ->
+    exists g', from_nx parse fmt Plain x true = Ok g'
+               /\ same_graph g g' /\ Inv parse Plain g' /\ Acyclic g'.
+  Proof.
+    intros HI Hac Hx.
+    destruct (@nx_roundtrip_novalidate parse fmt k g x HI Hx) as (g' & Hg' & Hids & Hsame).
+    unfold from_nx in *.
+    assert (HI' : Inv parse Plain g') by (eapply from_matrix_inv; eassumption).
+    assert (Hac' : Acyclic g') by (apply (same_graph_acyclic Hsame); exact Hac).
+    exists g'. rewrite (from_matrix_validated _ _ _ _ _ Hg').
+    rewrite check_nodes_ok; [cbn [bind]; auto|].
+    intros d Hd. rewrite <- Hids in Hd.
+    destruct (@cycle_check Plain g' d HI' Hd) as (b & Hb & Hiff). rewrite Hb. destruct b; [|reflexivity].
+    exfalso. apply (Hac' d). apply Hiff. reflexivity.
+  Qed.
+End WithGraphInvNx.
